@@ -434,3 +434,231 @@ theorem siteOkList_insert (p : Nat) (dest : Dest) {t : HTree} {L : List HTree} (
   | inr e => exact h k e
 
 end XotModel
+
+namespace XotModel
+open HTree Spec
+
+theorem strValues_editAt_merge {X : Forest} (p : Nat) (keep : Keep) (h : klList X.roots = true) :
+    (X.editAt (some p) (mergeRuns keep)).strValues = X.strValues :=
+  (textList_editAt_merge p keep X.roots h).2
+
+theorem klList_mergeRuns (keep : Keep) : ∀ L, klList L = true → klList (mergeRuns keep L) = true :=
+  fun _ h => (mergeRuns_text keep h).2.2
+
+/-- Merging at a site (if consolidation is on) changes no string value. -/
+theorem strValues_mergeAt {X : Forest} (keep : Keep) (s : Option Nat) (h : klList X.roots = true) :
+    (X.mergeAt keep s).strValues = X.strValues := by
+  cases s with
+  | none => rfl
+  | some p =>
+    rw [mergeAt_some]
+    split
+    · exact strValues_editAt_merge p keep h
+    · rfl
+
+theorem klList_mergeAt {X : Forest} (keep : Keep) (s : Option Nat) (h : klList X.roots = true)
+    (hs : ∀ p, s = some p → siteOkList p X.roots = true) : klList (X.mergeAt keep s).roots = true := by
+  cases s with
+  | none => exact h
+  | some p =>
+    rw [mergeAt_some]
+    split
+    · exact klList_editAt (klList_mergeRuns keep) X.roots h (hs p rfl)
+    · exact h
+
+/-- A live node that has a child is not a text node. -/
+theorem site_not_text {f : Forest} {p : Nat} {v : Value} {L : List HTree} (inv : f.Inv) (s : SiteAt f p v L)
+    (hne : L ≠ []) : v.isText = false := by
+  cases hv : v.isText with
+  | false => rfl
+  | true =>
+    exfalso
+    have := leaf_of_text inv.valid s.kids (by simpa [HTree.value] using hv)
+    simp only [HTree.kids] at this
+    exact hne this
+
+/-- **String values**: the specification of a move with consolidation on assigns to every
+    non-text node the string value the unmerged move assigns (same nodes, same document order). -/
+theorem specMove_strValues {f : Forest} {keep : Keep} {dest : Dest} {c : Nat} {t : HTree} {q : Nat} {vq : Value}
+    {Lq : List HTree} (inv : f.Inv) (hgc : f.get? c = some t) (sq : SiteAt f q vq Lq) (hqt : q ∉ handles t)
+    (hvq : vq.isText = false) (hsite : dest.site f = some q) :
+    (specMove keep dest c f).strValues =
+      (specMove keep dest c { f with consolidation := false }).strValues := by
+  have nd := inv.nodup
+  let f0 : Forest := { f with consolidation := false }
+  have hocc0 : dest.occupiedBy f0 c = dest.occupiedBy f c := by cases dest <;> rfl
+  have hsite0 : dest.site f0 = dest.site f := by cases dest <;> rfl
+  cases hocc : dest.occupiedBy f c with
+  | true =>
+    have h1 : specMove keep dest c f = f := by unfold specMove; rw [hocc]; rfl
+    have h2 : specMove keep dest c f0 = f0 := by unfold specMove; rw [hocc0, hocc]; rfl
+    rw [h1, h2]; rfl
+  | false =>
+    rw [specMove_unfold hocc hgc hsite]
+    have hgc0 : f0.get? c = some t := hgc
+    rw [specMove_unfold (f := f0) (by rw [hocc0]; exact hocc) hgc0 (by rw [hsite0]; exact hsite)]
+    have hc0 : ∀ (Z : Forest), Z.consolidation = false → ∀ s, Z.mergeAt keep s = Z := fun Z h s => mergeAt_off h keep s
+    have hpar0 : f0.parent? c = f.parent? c := rfl
+    rw [hpar0]
+    have e0 : (((f0.editAt (f.parent? c) (dropTop c)).editAt (some q) (dest.insert t)).mergeAt keep (f.parent? c)).mergeAt
+        keep (some q) = (f0.editAt (f.parent? c) (dropTop c)).editAt (some q) (dest.insert t) := by
+      have hX0 : ((f0.editAt (f.parent? c) (dropTop c)).editAt (some q) (dest.insert t)).consolidation = false := by
+        rw [Forest.editAt_consolidation, Forest.editAt_consolidation]
+      rw [hc0 _ hX0, hc0 _ hX0]
+    rw [e0]
+    -- the unmerged move, in `f` and in `f0`, has the same trees
+    have eroots : ((f0.editAt (f.parent? c) (dropTop c)).editAt (some q) (dest.insert t)).strValues =
+        ((f.editAt (f.parent? c) (dropTop c)).editAt (some q) (dest.insert t)).strValues := by
+      cases f.parent? c <;> rfl
+    rw [eroots]
+    -- leaf property and site conditions
+    have hklf : klList f.roots = true := klList_of_valid f.roots inv.valid
+    have hklt : kl t = true := klList_find f.roots t hklf hgc
+    have htl : t.value.isText = true → t.kids = [] := leaf_of_text inv.valid hgc
+    have hsq : siteOkList q f.roots = true := siteOkList_of_find (by simpa [HTree.value] using hvq) f.roots nd sq.kids
+    have hsqt : siteOk q t = true := siteOk_of_not_mem t hqt
+    -- after the cut
+    have hklZ : klList (f.editAt (f.parent? c) (dropTop c)).roots = true ∧
+        siteOkList q (f.editAt (f.parent? c) (dropTop c)).roots = true ∧
+        (∀ po, f.parent? c = some po → siteOkList po (f.editAt (f.parent? c) (dropTop c)).roots = true ∧
+          siteOk po t = true) := by
+      cases hpar : f.parent? c with
+      | none =>
+        refine ⟨klList_dropTop c hklf, siteOkList_dropTop q c hsq, fun po h => by cases h⟩
+      | some po =>
+        have hctx : ∃ cx, f.ctx? c = some cx := by
+          cases h : f.ctx? c with
+          | none => rw [Forest.parent?_of_no_ctx h] at hpar; cases hpar
+          | some cx => exact ⟨cx, rfl⟩
+        obtain ⟨cx, hctx⟩ := hctx
+        obtain ⟨e0', vo, so⟩ := SiteAt.of_ctx nd hctx
+        have hpo : cx.parent = po := by
+          rw [Forest.parent?_of_ctx hctx] at hpar
+          exact Option.some.inj hpar
+        rw [hpo] at so
+        have hvo : vo.isText = false := site_not_text inv so (by simp)
+        have hspo : siteOkList po f.roots = true :=
+          siteOkList_of_find (by simpa [HTree.value] using hvo) f.roots nd so.kids
+        have hpot : po ∉ handles t := by
+          intro hin
+          have hself : cx.self = t := by
+            have := Forest.get?_of_ctx nd hctx
+            rw [hgc] at this
+            exact (Option.some.inj this).symm
+          apply so.nodupKids.2
+          rw [handlesList_append, handlesList_cons, hself]
+          exact List.mem_append_right _ (List.mem_append_left _ hin)
+        refine ⟨klList_editAt (fun L h => klList_dropTop c h) f.roots hklf hspo,
+          siteOkList_editAt (fun L h => siteOkList_dropTop q c h) f.roots hsq, ?_⟩
+        intro po' h
+        have := Option.some.inj h
+        subst this
+        exact ⟨siteOkList_editAt (fun L h => siteOkList_dropTop _ c h) f.roots hspo, siteOk_of_not_mem t hpot⟩
+    obtain ⟨hklZ, hsqZ, hpoZ⟩ := hklZ
+    -- after the graft
+    have hklX : klList ((f.editAt (f.parent? c) (dropTop c)).editAt (some q) (dest.insert t)).roots = true :=
+      klList_editAt (fun L h => klList_insert dest h hklt htl) _ hklZ hsqZ
+    have hspoX : ∀ po, f.parent? c = some po →
+        siteOkList po ((f.editAt (f.parent? c) (dropTop c)).editAt (some q) (dest.insert t)).roots = true := by
+      intro po h
+      obtain ⟨h1, h2⟩ := hpoZ po h
+      exact siteOkList_editAt (fun L hL => siteOkList_insert po dest hL h2) _ h1
+    -- the two merges change no string value
+    rw [strValues_mergeAt keep (some q) (klList_mergeAt keep _ hklX hspoX), strValues_mergeAt keep _ hklX]
+
+end XotModel
+
+namespace XotModel
+open HTree Spec
+
+/-- With consolidation off the survivor rule plays no role. -/
+theorem specMove_off_keep (k1 k2 : Keep) (dest : Dest) (c : Nat) {f : Forest} (h : f.consolidation = false) :
+    specMove k1 dest c f = specMove k2 dest c f := by
+  unfold specMove
+  split
+  · rfl
+  · split
+    · rename_i t q _ _
+      simp only
+      have hX : ((f.editAt (f.parent? c) (dropTop c)).editAt (some q) (dest.insert t)).consolidation = false := by
+        rw [Forest.editAt_consolidation, Forest.editAt_consolidation]; exact h
+      rw [mergeAt_off hX, mergeAt_off hX, mergeAt_off hX, mergeAt_off hX]
+    · rfl
+
+/-- The unmerged move. -/
+def plainMove (dest : Dest) (c : Nat) (f : Forest) : Forest :=
+  specMove Keep.earlier dest c { f with consolidation := false }
+
+theorem append_strValues {f : Forest} {p c : Nat} (inv : f.Inv) (norm : f.Normal)
+    (hok : (f.append p c).2 = .ok) :
+    (f.append p c).1.strValues = (plainMove (.lastChildOf p) c f).strValues := by
+  rw [append_spec (Keep.earlier_spec c) inv norm hok]
+  have nd := inv.nodup
+  have hsc : f.structureCheck (some p) c = true := by
+    cases h : f.structureCheck (some p) c with
+    | true => rfl
+    | false => rw [Forest.append_unfold] at hok; simp [h] at hok
+  obtain ⟨vp, Lp, t, hgp, hgc, hpt, hnorm, hndoc, hvp⟩ := Forest.structureCheck_unpack nd hsc
+  have hvq : vp.isText = false := by
+    cases hvp with
+    | inl h => cases vp <;> simp_all [Value.isElement, Value.isText]
+    | inr h => cases vp <;> simp_all [Value.isDocument, Value.isText]
+  exact specMove_strValues inv hgc ⟨nd, hgp⟩ hpt hvq (by simp [Dest.site, Forest.isLive_of_get hgp])
+
+theorem prepend_strValues {f : Forest} {p c : Nat} (inv : f.Inv) (norm : f.Normal)
+    (hok : (f.prepend p c).2 = .ok) :
+    (f.prepend p c).1.strValues = (plainMove (.firstNormalChildOf p) c f).strValues := by
+  rw [prepend_spec inv norm hok]
+  have nd := inv.nodup
+  have hsc : f.structureCheck (some p) c = true := by
+    cases h : f.structureCheck (some p) c with
+    | true => rfl
+    | false => rw [prepend_unfold] at hok; simp [h] at hok
+  obtain ⟨vp, Lp, t, hgp, hgc, hpt, hnorm, hndoc, hvp⟩ := Forest.structureCheck_unpack nd hsc
+  have hvq : vp.isText = false := by
+    cases hvp with
+    | inl h => cases vp <;> simp_all [Value.isElement, Value.isText]
+    | inr h => cases vp <;> simp_all [Value.isDocument, Value.isText]
+  rw [specMove_strValues inv hgc ⟨nd, hgp⟩ hpt hvq (by simp [Dest.site, Forest.isLive_of_get hgp])]
+  unfold plainMove
+  rw [specMove_off_keep (Keep.resident c) Keep.earlier _ _ rfl]
+
+theorem insertAfter_strValues {f : Forest} {r c : Nat} (inv : f.Inv) (norm : f.Normal)
+    (hok : (f.insertAfter r c).2 = .ok) :
+    (f.insertAfter r c).1.strValues = (plainMove (.after r) c f).strValues := by
+  rw [insertAfter_spec inv norm hok]
+  have nd := inv.nodup
+  have hsc : f.structureCheck (f.parent? r) c = true := by
+    cases h : f.structureCheck (f.parent? r) c with
+    | true => rfl
+    | false => rw [insertAfter_unfold] at hok; simp [h] at hok
+  have hsr : f.siblingReferenceCheck r c = true := by
+    cases h : f.siblingReferenceCheck r c with
+    | true => rfl
+    | false => rw [insertAfter_unfold] at hok; simp [hsc, h] at hok
+  obtain ⟨q, vq, A, kr, B, t, sq, ekr, hkrn, hrc, hgc, hqt, hnorm, hndoc, hvq⟩ := sibling_checks_unpack nd hsc hsr
+  subst ekr
+  rw [specMove_strValues inv hgc sq hqt hvq (by simp only [Dest.site]; exact Forest.parent?_of_ctx sq.ctx)]
+  unfold plainMove
+  rw [specMove_off_keep (Keep.resident c) Keep.earlier _ _ rfl]
+
+theorem insertBefore_strValues {f : Forest} {r c : Nat} (inv : f.Inv) (norm : f.Normal)
+    (hok : (f.insertBefore r c).2 = .ok) :
+    (f.insertBefore r c).1.strValues = (plainMove (.before r) c f).strValues := by
+  rw [insertBefore_spec inv norm hok]
+  have nd := inv.nodup
+  have hsc : f.structureCheck (f.parent? r) c = true := by
+    cases h : f.structureCheck (f.parent? r) c with
+    | true => rfl
+    | false => rw [insertBefore_unfold] at hok; simp [h] at hok
+  have hsr : f.siblingReferenceCheck r c = true := by
+    cases h : f.siblingReferenceCheck r c with
+    | true => rfl
+    | false => rw [insertBefore_unfold] at hok; simp [hsc, h] at hok
+  obtain ⟨q, vq, A, kr, B, t, sq, ekr, hkrn, hrc, hgc, hqt, hnorm, hndoc, hvq⟩ := sibling_checks_unpack nd hsc hsr
+  subst ekr
+  rw [specMove_strValues inv hgc sq hqt hvq (by simp only [Dest.site]; exact Forest.parent?_of_ctx sq.ctx)]
+  unfold plainMove
+  rw [specMove_off_keep (Keep.resident c) Keep.earlier _ _ rfl]
+
+end XotModel
